@@ -1,7 +1,147 @@
 import ASV.Drv.J
+import ASV.Spec.Lookup
 namespace ASV.Drv.C08
-open Lean ASV ASV.Drv
+open Lean ASV ASV.Drv ASV.Lookup
 
-def handle (_j : Json) : R Json := throw "C08: no model yet"
+def geneOfJson (j : Json) : R Gene := do
+  let cores ← match j.getObjVal? "cores" with
+    | .ok v => listOf asStr v
+    | .error _ => pure []
+  return { id := ← natF j "id", loc := ← locOfJson (← fld j "loc"), cores := cores }
+
+def kindOfStr : String → R Kind
+  | "proto" => pure .proto | "cand" => pure .cand | "sub" => pure .sub | "region" => pure .region
+  | s => throw s!"bad kind {s}"
+
+partial def areaOfJson (j : Json) : R AreaT := do
+  let loc ← locOfJson (← fld j "loc")
+  let core ← match j.getObjVal? "core" with
+    | .ok .null => pure loc
+    | .ok v => locOfJson v
+    | .error _ => pure loc
+  let product := (strF j "product").toOption.getD ""
+  let kids ← match j.getObjVal? "kids" with
+    | .ok v => listOf areaOfJson v
+    | .error _ => pure []
+  return .mk (← natF j "id") (← kindOfStr (← strF j "kind")) loc core product kids
+
+def opOfJson (j : Json) : R Op := do
+  match ← asStr (← idx j 0) with
+  | "cds" => return .cds (← geneOfJson (← idx j 1))
+  | "area" => return .area (← areaOfJson (← idx j 1))
+  | t => throw s!"bad op {t}"
+
+def ids (gs : List Gene) : Json := toJson (gs.map (·.id))
+def sortNats (l : List Nat) : List Nat := sortDedup (· < ·) l
+def jNats (l : List Nat) : Json := toJson l
+
+def eJson {α} (f : α → Json) : E α → Json
+  | .ok v => jObj [("ok", f v)]
+  | .error e => jObj [("err", Json.str e)]
+
+/-- well-formed gene: parts non-empty and non-negative, the sort key exists -/
+def geneOK (len : Int) (g : Gene) : Bool :=
+  !g.loc.parts.isEmpty
+  && g.loc.parts.all (fun p => decide (0 ≤ p.lo) && decide (p.lo < p.hi) && decide (p.hi ≤ len))
+  && (match comparatorStart g.loc with | .ok _ => true | .error _ => false)
+
+def locOK (len : Int) (l : Loc) : Bool :=
+  !l.parts.isEmpty && l.parts.all fun p => decide (0 ≤ p.lo) && decide (p.lo < p.hi) && decide (p.hi ≤ len)
+
+/-- a query: parts non-empty and inside the record; a single part may start below 0 (it is clamped) -/
+def queryOK (len : Int) (q : Loc) : Bool :=
+  match q.parts with
+  | [p] => decide (p.lo < p.hi) && decide (p.hi ≤ len) && decide (0 < p.hi)
+  | _ => locOK len q
+
+def distinct (l : List Nat) : Bool := (sortNats l).length == l.length
+
+partial def kidsInside : AreaT → Bool
+  | .mk _ _ loc _ _ kids => kids.all fun k => containedBy k.loc loc && kidsInside k
+
+partial def kindsWF : AreaT → Bool
+  | .mk _ kind _ _ _ kids =>
+    (match kind with
+      | .proto | .sub => kids.isEmpty
+      | .cand => kids.all (·.kind == .proto)
+      | .region => kids.all fun k => k.kind == .cand || k.kind == .sub)
+    && kids.all kindsWF
+
+def opsGenes (ops : List Op) : List Gene := ops.filterMap fun | .cds g => some g | _ => none
+def opsAreas (ops : List Op) : List AreaT := ops.filterMap fun | .area a => some a | _ => none
+
+def allNodes (extra : List AreaT) (ops : List Op) : List AreaT :=
+  let ns := (opsAreas ops ++ extra).flatMap nodes
+  ns.foldl (fun acc a => if acc.any (·.id == a.id) then acc else acc ++ [a]) []
+
+/-- the same id always names the same object -/
+def idsConsistent (ops : List Op) : Bool :=
+  let ns := (opsAreas ops).flatMap nodes
+  ns.all fun a => ns.all fun b => a.id != b.id ||
+    (a.loc == b.loc && a.core == b.core && a.kind == b.kind && a.product == b.product
+      && a.kids.map (·.id) == b.kids.map (·.id))
+
+def obsOf (extra : List AreaT) (ops : List Op) (r : Rec) : Json :=
+  let ns := allNodes extra ops
+  jObj [
+    ("order", ids r.genes),
+    ("children", jArr (ns.map fun a => jArr [toJson a.id, jNats (sortNats (r.children a.id))])),
+    ("region", jArr ((opsGenes ops).map fun g => jArr [toJson g.id,
+        match r.regionOfGene g.id with | some x => toJson x | none => Json.null])),
+    ("defs", jArr ((ns.filter (·.kind == .proto)).map fun a => jArr [toJson a.id, jNats (sortNats (r.definition a.id))]))]
+
+def specObs (extra : List AreaT) (ops : List Op) : Json :=
+  let ns := allNodes extra ops
+  let genes := opsGenes ops
+  let regions := (opsAreas ops).filter (·.kind == .region)
+  -- an area is served by the record once it, or an area it is a child of, has been added
+  let reach := (opsAreas ops).flatMap nodes
+  let ns := ns.map fun a => (a, reach.any (·.id == a.id))
+  jObj [
+    ("children", jArr (ns.map fun (a, live) => jArr [toJson a.id, jNats (if live then sortNats (specChildren genes a) else [])])),
+    ("region", jArr (genes.map fun g => jArr [toJson g.id, jNats (sortNats (specRegions regions g))])),
+    ("defs", jArr ((ns.filter (·.1.kind == .proto)).map fun (a, live) => jArr [toJson a.id, jNats (if live then sortNats (specDefinition genes a) else [])]))]
+
+def handle (j : Json) : R Json := do
+  let f ← strF j "f"
+  let len ← intF j "len"
+  match f with
+  | "lookup" =>
+    let genes ← listOf geneOfJson (← fld j "genes")
+    let qs ← listOf (fun x => do return ((← locOfJson (← fld x "q")), (← boolF x "ov"))) (← fld j "qs")
+    let m := run len (genes.map Op.cds)
+    let model := eJson (fun (r : Rec) => jObj [("order", ids r.genes),
+      ("found", jArr (qs.map fun (q, ov) => ids (within r.genes q ov)))]) m
+    -- spec on the implementation's gene order
+    let order ← match j.getObjVal? "order" with
+      | .ok v => listOf asNat v
+      | .error _ => pure []
+    let ordered := order.filterMap fun i => genes.find? (·.id == i)
+    let scope := genes.all (geneOK len) && qs.all (fun (q, _) => queryOK len q) && distinct (genes.map (·.id))
+      && genes.all (fun g => genes.all fun h => g.id == h.id || g.loc != h.loc)
+    return jObj [("model", model),
+                 ("spec", jObj [("found", jArr (qs.map fun (q, ov) => ids (specWithin ordered q ov))),
+                                ("sorted", toJson (specSorted ordered)),
+                                ("complete", toJson (ordered.length == genes.length))]),
+                 ("scope", toJson scope)]
+  | "history" =>
+    let ops ← listOf opOfJson (← fld j "ops")
+    let ops2 ← match j.getObjVal? "ops2" with
+      | .ok v => listOf opOfJson v
+      | .error _ => pure ops
+    let extra ← match j.getObjVal? "areas" with
+      | .ok v => listOf areaOfJson v
+      | .error _ => pure []
+    let genes := opsGenes ops
+    let areas := opsAreas ops
+    let scope := genes.all (geneOK len) && distinct (genes.map (·.id))
+      && genes.all (fun g => genes.all fun h => g.id == h.id || g.loc != h.loc)
+      && areas.all (fun a => kidsInside a && kindsWF a && (nodes a).all fun n => locOK len n.loc && locOK len n.core)
+      && idsConsistent (ops ++ extra.map Op.area) && distinct (areas.map (·.id))
+    return jObj [("model", eJson (obsOf extra ops) (run len ops)),
+                 ("model2", eJson (obsOf extra ops) (run len ops2)),
+                 ("spec", specObs extra ops),
+                 ("scope", toJson scope)]
+  | _ => throw s!"C08: unknown case kind {f}"
 
 end ASV.Drv.C08
